@@ -945,17 +945,24 @@ def concretize_int(si):
             return v
 
 
-def sym_trunc_int(x):
-    """int(x): truncation toward zero -> SI (fresh Int tied to x)."""
+def sym_trunc_int(x, strict=True):
+    """int(x): truncation toward zero -> SI (fresh Int tied to x).
+    strict (python int()): NaN/inf raise ValueError; non-strict (array casts): the result is an unconstrained int."""
     x = SF.lift(x)
     c = as_const(x)
     if c is not None:
+        if c != c or c in (math.inf, -math.inf):
+            if strict:
+                raise ValueError("cannot convert float NaN/inf to integer")
+            return SI(z3.Int(EX.fresh_name('poison')))
         return SI.lift(int(c))
-    if bool(mkbool(x.special())):
+    sp = x.special()
+    if strict and sp is not False and bool(mkbool(sp)):
         raise ValueError("cannot convert float NaN/inf to integer")
     n = z3.Int(EX.fresh_name('trunc'))
     nr = z3.ToReal(n)
-    EX.add_axiom(z3.If(x.v >= 0, z3.And(nr <= x.v, x.v < nr + 1), z3.And(nr - 1 < x.v, x.v <= nr)), 'int(): truncation')
+    rel = z3.If(x.v >= 0, z3.And(nr <= x.v, x.v < nr + 1), z3.And(nr - 1 < x.v, x.v <= nr))
+    EX.add_axiom(rel if (strict or sp is False) else z3.Implies(z3.Not(bz3(sp)), rel), 'int(): truncation')
     return SI(n)
 
 
@@ -979,6 +986,56 @@ def sym_ceil(x):
     nr = z3.ToReal(n)
     EX.add_axiom(z3.And(nr - 1 < x.v, x.v <= nr), 'ceil')
     return SF(x.nan, nr, x.pinf, x.ninf)
+
+
+# ----------------------------------------------------------------- concrete IEEE float (replay mode)
+class F(float):
+    """python float with IEEE division semantics (x/0 -> +-inf or NaN instead of ZeroDivisionError);
+    arithmetic stays in this type so that specification code can run on replay values unchanged"""
+    __slots__ = ()
+
+    @staticmethod
+    def _w(v):
+        return F(v) if isinstance(v, float) and not isinstance(v, F) else v
+
+    def __add__(self, o): return F._w(float.__add__(self, o)) if isinstance(o, (int, float)) else NotImplemented
+    def __radd__(self, o): return F._w(float.__radd__(self, o)) if isinstance(o, (int, float)) else NotImplemented
+    def __sub__(self, o): return F._w(float.__sub__(self, o)) if isinstance(o, (int, float)) else NotImplemented
+    def __rsub__(self, o): return F._w(float.__rsub__(self, o)) if isinstance(o, (int, float)) else NotImplemented
+    def __mul__(self, o): return F._w(float.__mul__(self, o)) if isinstance(o, (int, float)) else NotImplemented
+    def __rmul__(self, o): return F._w(float.__rmul__(self, o)) if isinstance(o, (int, float)) else NotImplemented
+    def __neg__(self): return F(float.__neg__(self))
+    def __pos__(self): return self
+    def __abs__(self): return F(float.__abs__(self))
+
+    def __truediv__(self, o):
+        if not isinstance(o, (int, float)):
+            return NotImplemented
+        return F(_ieee_div(float(self), float(o)))
+
+    def __rtruediv__(self, o):
+        if not isinstance(o, (int, float)):
+            return NotImplemented
+        return F(_ieee_div(float(o), float(self)))
+
+    def __pow__(self, p):
+        if isinstance(p, float) and p == 0.5:
+            return F(math.sqrt(self)) if self >= 0 else F(math.nan)
+        try:
+            return F._w(float.__pow__(self, p))
+        except (OverflowError, ZeroDivisionError):
+            return F(math.inf)
+
+    def item(self):
+        return self
+
+
+def _ieee_div(a, b):
+    if b == 0:
+        if a != a or a == 0:
+            return math.nan
+        return math.inf if (a > 0) == (math.copysign(1.0, b) > 0) else -math.inf
+    return a / b
 
 
 # ----------------------------------------------------------------- ite / merge
